@@ -184,8 +184,9 @@ def solver_trace(events, solver, iters, nols):
             "lastbpout": lastbp, "events": out}
 
 
-SOLVER_TRACE_CFG = ("CONSTANTS\n  MaxIters = 1\n  MaxTrials = 25\nSPECIFICATION TraceSpec\nCONSTRAINT Marker\nPOSTCONDITION Post\n"
+SOLVER_TRACE_CFG = ("CONSTANTS\n  MaxIters = 1\n  MaxTrials = 25\n  Strict = TRUE\nSPECIFICATION TraceSpec\nCONSTRAINT Marker\nPOSTCONDITION Post\n"
                     "CHECK_DEADLOCK FALSE\n")
+SOLVER_TRACE_CFG_LENIENT = SOLVER_TRACE_CFG.replace("Strict = TRUE", "Strict = FALSE")
 
 
 # ---------------------------------------------------------------- numeric coherence of a returned model
